@@ -15,15 +15,16 @@ spec("acl_wf(acl)", "wf_acl(acl)"
      " and forall(a, 0, len(acl._acl), forall(b, 0, len(acl._acl), implies(a != b and acl._acl[a] is not None, acl._acl[a] is not acl._acl[b])))"
      " and forall(a, 0, len(acl._acl), acl._acl[a] is not acl.implicit_rule)")
 
+contract(f"{ARP}::ARP.get_arp_cache_network_interface", verify=False, note="pure ARP-cache lookup (the router variant may send ARP requests: not modelled)",
+         ensures=[], modifies=[])
+contract(f"{ARP}::ARP.get_arp_cache_mac_address", verify=False, note="pure ARP-cache lookup (the router variant may send ARP requests: not modelled)",
+         ensures=[], modifies=[])
 contract(f"{ARP}::ARP.add_arp_cache_entry", verify=False, note="address learning: touches this ARP cache only",
          ensures=[], modifies=["self.arp{*}"], emits=[("learn", ["self", "ip_address"])], allocates=True)
 dispatch_contract(f"{SM}::SessionManager.receive_frame", note="hand-off to the node's own software: anything may happen",
                   ensures=[], modifies=["heap"], emits=[("handoff", ["self", "frame"])], allocates=True)
 contract(f"{SM}::SessionManager.receive_frame", verify=False, note="hand-off to the node's own software: anything may happen",
          ensures=[], modifies=["heap"], emits=[("handoff", ["self", "frame"])], allocates=True)
-contract(f"{SWM}::SoftwareManager.get_open_ports", verify=False, note="pure query (proved separately under C13 when in reach)",
-         ensures=[], modifies=[], allocates=True)
-
 contract(f"{RT}::Router._get_port_of_nic", props=["C06"], ensures=[], modifies=[], loops={0: {"inv": []}})
 
 contract(f"{RT}::Router.ip_is_router_interface", props=["C08", "C06"],
@@ -43,10 +44,13 @@ contract(f"{RT}::Router.check_send_frame_to_session_manager", props=["C08", "C06
 contract(f"{RT}::Router.subject_to_acl", props=["C06"], requires=["wf_frame(frame)"],
          ensures=[("all_but_arp", "result == (not (frame.ip.protocol == 'udp' and frame.udp.dst_port == 219))")], modifies=[], allocates=True)
 
+# on a firewall, forwarding is only ever reached after a destination-side list of that firewall has permitted the frame
+spec("fw_cleared(fw, f)", "permits(fw.internal_inbound_acl, f) or permits(fw.dmz_inbound_acl, f) or permits(fw.external_outbound_acl, f)")
 contract(f"{RT}::Router.process_frame", verify=False, note="forwarding decision after the filter: not yet under contract",
-         ensures=[], modifies=["heap"], allocates=True)
+         requires=["implies(isinstance(self, Firewall), fw_cleared(self, frame))"],
+         ensures=[], modifies=["heap"], emits=[("process", ["self", "frame"])], allocates=True)
 contract(f"{RT}::Router.receive_frame", props=["C06", "C12"],
-         requires=["wf_frame(frame)", "acl_wf(self.acl)", "masks_valid(self)"],
+         requires=["wf_frame(frame)", "acl_wf(self.acl)", "masks_valid(self)", "not isinstance(self, Firewall)"],
          ensures=[
              # "while a node is not ON it neither processes nor emits traffic"
              ("off_does_nothing", "implies(old(self.operating_state) != NodeOperatingState.ON, unchanged() and n_events() == old(n_events()))"),
@@ -64,3 +68,28 @@ contract(f"{RT}::Router.ip_is_in_router_interface_subnet", props=["C08"],
                                      " in_net(ip_address, dict_val(self.network_interface, j).ip_address, dict_val(self.network_interface, j).subnet_mask)))")],
          modifies=[], allocates=True,
          loops={0: {"inv": []}})
+
+
+# ---- firewall: every zone crossing consults the destination zone's list before anything is forwarded -----------------------
+FW = "src/primaite/simulator/network/hardware/nodes/network/firewall.py"
+# a firewall has its three ports (EXTERNAL_PORT_ID 1, INTERNAL_PORT_ID 2, DMZ_PORT_ID 3) from construction
+FW_BASE = ["wf_frame(frame)", "masks_valid(self)", "self.software_manager.arp is not None",
+           "1 in self.network_interface and 2 in self.network_interface and 3 in self.network_interface"]
+
+
+def fw_req(*acls):
+    return FW_BASE + [f"acl_wf(self.{z})" for z in acls]
+
+
+for name, acl in (("_process_internal_inbound_frame", "internal_inbound_acl"), ("_process_dmz_inbound_frame", "dmz_inbound_acl"),
+                  ("_process_external_outbound_frame", "external_outbound_acl")):
+    contract(f"{FW}::Firewall.{name}", props=["C06"], requires=fw_req(acl),
+             ensures=[("denied_goes_nowhere", f"implies(not old(permits(self.{acl}, frame)), n_events() == old(n_events()))")],
+             modifies=["heap"], allocates=True)
+for name, acl, nxt in (("_process_external_inbound_frame", "external_inbound_acl", ("dmz_inbound_acl", "internal_inbound_acl")),
+                       ("_process_internal_outbound_frame", "internal_outbound_acl", ("dmz_inbound_acl", "external_outbound_acl")),
+                       ("_process_dmz_outbound_frame", "dmz_outbound_acl", ("external_outbound_acl", "internal_inbound_acl"))):
+    extra = ["forall(k, 0, len(self.route_table.routes), valid_mask(self.route_table.routes[k].subnet_mask))"] if "dmz_outbound" in name else []
+    contract(f"{FW}::Firewall.{name}", props=["C06"], requires=fw_req(acl, *nxt) + extra,
+             ensures=[("denied_goes_nowhere", f"implies(not old(permits(self.{acl}, frame)), n_events() == old(n_events()))")],
+             modifies=["heap"], allocates=True)
